@@ -452,6 +452,7 @@ func TestCheck(t *testing.T) {
 	rec.Note("require", []string{"limit.oversize_rejected", "limit.within_limit", "multi.ok.Read", "multi.ok.io.Copy", "multi.ok.ReadAll", "tee.ok", "limit.eof_with_n_plus_1th_byte"})
 	rec.Note("exhaustive_lengths", fmt.Sprintf("all compositions for source lengths 0..%d at every N (LimitReadCloser), 0..%d (TeeReadCloser)", mon.Pick(9, 15), mon.Pick(7, 11)))
 	gs := plan()
+	rec.Planned(len(gs))
 	for idx, g := range gs {
 		if !mon.Mine(idx) {
 			continue
